@@ -3,7 +3,7 @@
    sumbool, sumor -> native OCaml types); N / positive / nat stay as the
    extracted inductive datatypes. *)
 From Coq Require Import Extraction ExtrOcamlBasic.
-From Resolvo Require Import Spec.Oracle Cdcl.CheckRun Async.History Conflict.GraphCheck Conflict.GraphBuild Async.Encoder Async.EncoderSafe Async.EncoderWatch Cdcl.AnalyzeRun Cdcl.Unsolvable Cdcl.SoftKeep Float.DecideRun Cdcl.PropagateRun.
+From Resolvo Require Import Spec.Oracle Cdcl.CheckRun Async.History Conflict.GraphCheck Conflict.GraphBuild Async.Encoder Async.EncoderSafe Async.EncoderWatch Cdcl.AnalyzeRun Cdcl.Unsolvable Cdcl.SoftKeep Float.DecideRun Cdcl.PropagateRun Float.SolverRun.
 Extraction Language OCaml.
 Extraction "oracle.ml" table_provider mkU mkSol mkVs mkPkg mkProblem
   o_valid o_supported o_solvable o_greedy o_explicit_first o_soft_expect
@@ -12,4 +12,4 @@ Extraction "oracle.ml" table_provider mkU mkSol mkVs mkPkg mkProblem
   causalb onceb exactb exact_nextb eagerb cancel_quietb
   mkGraph truthfulb reachableb refutesb check_core check_graph_build build_graph core_clauses
   check_encoder check_encoder_final check_encoder_from check_encoder_final_from cache_after enc_run fifo_ok quiet_ok assert_ok estate0 cache0
-  check_analyses check_unsolvable soft_keep check_watch check_decides_default check_propagates.
+  check_analyses check_unsolvable soft_keep check_watch check_decides_default check_propagates check_solver.
